@@ -1,6 +1,7 @@
 package props
 
 import (
+	"bytes"
 	"context"
 	"fmt"
 	"io"
@@ -178,7 +179,7 @@ func checkAcceptedExact(t ev.Failer, prop string, sc *sealedCase, tr *wire.Conn,
 func TestC03(t *testing.T) {
 	rec := ev.Get("C03")
 	rec.Rule("rapid draws inner extension list (SNI, ALPN, versions, ECH-inner, 0..12 free extensions, optional PSK last, permuted), a contiguous compressed run, an outer list containing the run as an order-preserving subsequence interleaved with 2..12 outer-only extensions, padding 0..600, session id 0..32, 3 AEADs, sizes up to the record limit; sealed with crypto/hpke over a raw-byte AAD. distinct = layout signature (run position/length, positions in outer, padding, sid length); non-trivial = compressed run non-empty")
-	rec.Mandatory("compressed", "run3_interleaved", "run_at_first", "run_at_last", "aead1", "aead2", "aead3", "pad0", "inner_ge12k")
+	rec.Mandatory("compressed", "run3_interleaved", "run_at_first", "run_at_last", "aead1", "aead2", "aead3", "pad0", "inner_ge12k", "encoded_inner_with_session_id")
 	rapid.Check(t, func(t *rapid.T) {
 		sc := drawSealed(t, true)
 		rec.Case(sc.layoutKey(), sc.Tuple.RunLen > 0, sc.classes(), func() any {
@@ -190,5 +191,38 @@ func TestC03(t *testing.T) {
 		checkAcceptedExact(t, "C03", sc, tr, []*hello.Key{sc.Key})
 		// the same key material serves the application's next connection just as well
 		checkAcceptedExact(t, "C03", sc, wire.New(sc.Record, io.EOF), []*hello.Key{sc.Key})
+		// EncodedClientHelloInner carrying a legacy_session_id of its own (section 5.1 says
+		// it is empty): the hello is refused, or the backend still gets ClientHelloOuter's
+		// session id - never the stray one
+		if rapid.IntRange(0, 3).Draw(t, "encoded_inner_with_sid") == 0 {
+			sid := hello.GenBytes(t, "stray_sid", rapid.IntRange(1, 32).Draw(t, "stray_sid_len"))
+			if bytes.Equal(sid, sc.Tuple.Outer.SessionID) {
+				sid[0] ^= 1
+			}
+			sl, err := hello.NewSealer(sc.Key.Config, sc.Key.Priv.PublicKey().Bytes(), sc.Suite, sc.Key.ID)
+			if err != nil {
+				t.Fatalf("harness: %v", err)
+			}
+			o := sc.Tuple.Outer.Clone()
+			m, err := sl.SealOuter(o, hello.EncodeWithSessionID(hello.Compress(sc.Tuple.Inner, sc.Tuple.RunStart, sc.Tuple.RunLen), sid, make([]byte, sc.Tuple.Pad)), true)
+			if err != nil {
+				t.Fatalf("harness: %v", err)
+			}
+			if len(m) <= 16384 {
+				r := hello.Record(22, sc.RecVer, m)
+				rp := map[string]any{"keys": keysReplay([]*hello.Key{sc.Key}), "client_stream": hx(r), "stray_session_id": hx(sid)}
+				c, e := newConn(context.Background(), wire.New(r, io.EOF), echKeys(sc.Key))
+				if isPanic(e) {
+					ev.Violation(t, "C03", rp, "panic: %v", e)
+				}
+				if e == nil && c.ECHAccepted() {
+					got, e2 := readOneRecord(c)
+					if e2 != nil || !sameRecord(got, hello.Record(22, 0x0303, sc.WantInner)) {
+						ev.Violation(t, "C03", map[string]any{"case": rp, "got": hx(got)}, "EncodedClientHelloInner with a session id of its own: the forwarded hello is not ClientHelloInner with ClientHelloOuter's legacy_session_id (err=%v)", e2)
+					}
+				}
+				rec.Class("encoded_inner_with_session_id")
+			}
+		}
 	})
 }
